@@ -25,6 +25,9 @@ import (
 // stored finalization is not overwritten.
 func VH_C10_E2_EngineRestart() {
 	verifrt.Summarize("ByzantineThresholds")
+	// stated assumption (as in the state-machine kit): the 100 ms blocked-send guards of
+	// handleProposalViewUpdate never fire (the consensus manager takes every request in time)
+	verifrt.Summarize("SMQuietSendGuardTimers")
 	const n = 3
 	keys := vkit.OkKeys(n)
 	pows := vkit.Powers("power", n)
